@@ -21,6 +21,11 @@ func init() {
 		checkConnectives(r, prog, a, "c03")
 		checkASTIntegrity(r, prog, a, "c03")
 		checkTreeHandedOver(r, prog, a, "c03")
+		if g := loadGrammars(r, prog); g != nil {
+			r.importing = "C15"
+			checkBinaryActions(r, NewGA(prog, g.Tab), "c15") // the node evaluated has the two operands that were written
+			r.importing = ""
+		}
 		r.Technique = "abstract interpretation of the SSA of the expression dispatcher over the outcome domain {true,false,error}×{true,false,error} (path-sensitive, helpers inlined to depth 3), compared with the 3×3 table transcribed from the statement"
 		r.Explain = "For each connective (node type × operator constant) and each assignment of outcomes to the operands, every feasible path through the dispatcher is followed symbolically with the operand evaluation calls replaced by their assumed outcome; the returned pair, which operands were evaluated, their order, and the datum/options forwarded to them are compared with the statement's table. By induction on expression depth this covers every expression. Decides the whole property given sub-results."
 		r.Assume = append(r.Assume, "Go SSA construction preserves source semantics", "operand outcomes are abstracted to {true,false,error}; an error outcome is 'err != nil' whatever the boolean")
